@@ -448,9 +448,9 @@ class History:
         it = len(self.its)
         self.its.append({"loop": l, "lh": li})
         self.open_it[l.cont.cif] = it
-        for _ in range(r.randint(1, 7)):
+        for step in range(r.randint(1, 7)):
             k = r.random()
-            if k < 0.35:
+            if k < 0.35 or (step == 0 and k < 0.85):
                 self.op("itnext", it)
             elif k < 0.5:
                 keys = list(l.names.keys()); r.shuffle(keys)
@@ -464,17 +464,152 @@ class History:
                     toks = self.splice_pair(toks, pos, bad)
                     keys = keys + ["_zz"]
                 self.op("itupd", it, len(keys), *toks)
-            elif k < 0.6:
+            elif k < 0.68:
                 self.op("itrem", it)
                 l.npk = max(0, l.npk - 1)
             else:
                 # any other op (both intended-good and intended-bad) while the transaction is open
                 kinds = self.FAIL_KINDS if r.random() < 0.6 else self.GOOD_KINDS
-                kk = r.choice([x for x in kinds if x not in ("g_iter", "g_delcif", "f_iter_misuse")])
+                kk = r.choice([x for x in kinds if x not in ("g_iter", "g_delcif", "f_iter_misuse", "g_cross")])
                 getattr(self, kk)()
         self.op("itclose" if r.random() < 0.6 else "itabort", it)
         self.its[it] = None
         del self.open_it[l.cont.cif]
+        return True
+
+    def ensure_loop_handle(self, h, loop):
+        """index of a live loop handle on `loop` made from container handle h (an itemloop call if there is none)"""
+        for i, e in enumerate(self.lhs):
+            if e is not None and e[0] is loop and e[1] == h and self.chs[h] is not None:
+                return i
+        nm = list(loop.names.values())[0]
+        self.op("itemloop", h, name_tok(nm, True))
+        self.lhs.append((loop, h))
+        return len(self.lhs) - 1
+
+    def full_packet(self, li, loop):
+        toks = []
+        for k in loop.names:
+            toks += [name_tok(loop.names[k], True)] + self.value()
+        self.op("addpkt", li, len(loop.names), *toks)
+        loop.npk += 1
+
+    def g_cross(self):
+        """cross-container coincidences: two containers of ONE CIF holding the same item names in loops with DIFFERENT loop
+        numbers (loops created in opposite orders), the same row numbers in use, then an iterator session (next, remove /
+        update) and name- or loop-keyed calls (set_value, remove_item, add_item, loop_destroy) in one of them.  A statement
+        that forgets `container_id` in a name / loop_num predicate shows in the other loops / the other container."""
+        r = self.r
+        hs = [h for h in self.live_chs() if not self.in_tx(self.chs[h].cif)]
+        if not hs:
+            return False
+        h1 = r.choice(hs)
+        c1 = self.chs[h1]
+        # (1) at least two non-scalar loops with packets in c1
+        good = [l for l in c1.loops if l.cat != "" and l.names]
+        while len(good) < 2:
+            names = self.fresh_items(c1, r.randint(1, 2))
+            if not names:
+                break
+            self.op("mkloop", h1, cat_tok(r.choice(CATS)), len(names), *[name_tok(n, True) for n in names])
+            l = SLoop(c1, None, names); c1.loops.append(l); self.lhs.append((l, h1)); good.append(l)
+        if len(good) < 2:
+            return False
+        for l in good:
+            if l.npk == 0:
+                li = self.ensure_loop_handle(h1, l)
+                for _ in range(r.randint(1, 2)):
+                    self.full_packet(li, l)
+        # (2) another container in the same CIF
+        others = [h for h in hs if self.chs[h].cif == c1.cif and self.chs[h] is not c1]
+        if others and r.random() < 0.7:
+            h2 = r.choice(others)
+        else:
+            par = h1 if (c1.depth < 3 and len(c1.frames) < 3 and r.random() < 0.6) else None
+            if par is not None:
+                code = self.pick_code(c1.frames.keys(), True)
+                if code is None:
+                    return False
+                self.op("mkframe", h1, name_tok(code, False))
+                f = SCont(c1.cif, c1, code, c1.depth + 1); c1.frames[f.key] = f; self.chs.append(f)
+            else:
+                if len(self.cifs[c1.cif]) >= 4:
+                    return False
+                code = self.pick_code(self.cifs[c1.cif].keys(), True)
+                if code is None:
+                    return False
+                self.op("mkblock", c1.cif, name_tok(code, False))
+                f = SCont(c1.cif, None, code, 0); self.cifs[c1.cif][f.key] = f; self.chs.append(f)
+            h2 = len(self.chs) - 1
+        c2 = self.chs[h2]
+        # (3) mirror c1's loops into c2 in the opposite order (so that loop numbers of same-named items differ)
+        have = c2.items()
+        for l in reversed(good):
+            names = [l.names[k] for k in l.names if k not in have]
+            if not names:
+                continue
+            variant = [r.choice([x for x in ITEMS_OK if norm(x) == norm(n)] or [n]) for n in names]
+            self.op("mkloop", h2, cat_tok(r.choice(CATS)), len(variant), *[name_tok(n, True) for n in variant])
+            m = SLoop(c2, None, variant); c2.loops.append(m); self.lhs.append((m, h2))
+            for _ in range(r.randint(1, 2)):
+                self.full_packet(len(self.lhs) - 1, m)
+        # (4) iterator session on one loop of c1 (or of c2)
+        hx, cx = (h1, c1) if r.random() < 0.7 else (h2, c2)
+        cand = [l for l in cx.loops if l.npk > 0 and l.cat != "" and l.names]
+        if cand:
+            l = r.choice(cand)
+            li = self.ensure_loop_handle(hx, l)
+            self.op("itopen", li)
+            it = len(self.its)
+            self.its.append(None)
+            for _ in range(r.randint(1, 3)):
+                self.op("itnext", it)
+                k = r.random()
+                if k < 0.5:
+                    self.op("itrem", it); l.npk = max(0, l.npk - 1)
+                elif k < 0.85:
+                    keys = list(l.names.keys()); r.shuffle(keys)
+                    keys = keys[:r.randint(1, len(keys))]
+                    toks = []
+                    for kk in keys:
+                        toks += [name_tok(l.names[kk], True)] + self.value()
+                    self.op("itupd", it, len(keys), *toks)
+            if r.random() < 0.75:
+                self.op("itclose", it)
+            else:
+                self.op("itabort", it)
+        # (5) name- / loop-keyed calls in one of the two containers
+        for _ in range(r.randint(1, 3)):
+            hx, cx = (h1, c1) if r.random() < 0.5 else (h2, c2)
+            items = cx.items()
+            if not items:
+                break
+            key = r.choice(list(items.keys()))
+            l = items[key]
+            k = r.random()
+            if k < 0.35:
+                self.op("setval", hx, name_tok(l.names[key], True), *self.value())
+            elif k < 0.55:
+                self.op("rmitem", hx, name_tok(l.names[key], True))
+                del l.names[key]
+                if not l.names:
+                    l.alive = False; cx.loops.remove(l)
+            elif k < 0.75:
+                names = self.fresh_items(cx, 1)
+                if names:
+                    li = self.ensure_loop_handle(hx, l)
+                    self.op("additem", li, name_tok(names[0], True), *self.value())
+                    l.names[norm(names[0])] = names[0]
+            elif k < 0.9:
+                li = self.ensure_loop_handle(hx, l)
+                self.full_packet(li, l)
+            else:
+                li = self.ensure_loop_handle(hx, l)
+                self.op("ldestroy", li)
+                l.alive = False
+                if l in cx.loops:
+                    cx.loops.remove(l)
+                self.lhs[li] = None
         return True
 
     def splice_pair(self, toks, pos, pair):
@@ -729,7 +864,7 @@ class History:
 
     GOOD_KINDS = (["g_mkblock"] * 3 + ["g_getblock"] * 2 + ["g_mkframe"] * 3 + ["g_getframe"] * 2 + ["g_mkloop"] * 6 + ["g_setval_new"] * 4
                   + ["g_setval_old"] * 3 + ["g_addpkt"] * 8 + ["g_additem"] * 2 + ["g_rmitem"] * 3 + ["g_query"] * 6 + ["g_setcat"]
-                  + ["g_prune", "g_ldestroy", "g_cdestroy", "g_cdestroy", "g_newcif", "g_delcif"] + ["g_iter"] * 3)
+                  + ["g_prune", "g_ldestroy", "g_cdestroy", "g_cdestroy", "g_newcif", "g_delcif"] + ["g_iter"] * 3 + ["g_cross"] * 4)
     FAIL_KINDS = (["f_mkblock"] * 2 + ["f_mkframe"] * 2 + ["f_lookup"] * 2 + ["f_mkloop"] * 6 + ["f_addpkt"] * 6 + ["f_item"] * 5
                   + ["f_setcat"] * 2 + ["f_stale_loop"] * 2 + ["f_iter_misuse"])
 
@@ -1218,6 +1353,24 @@ def violations(req, impl):
                 if pb is not None and pa is not None:
                     if pa["loops"] != [l for l in pb["loops"] if l["packets"]]:
                         out.append((None, "%s: prune must remove exactly the loops without packets" % where))
+            # ---- frame rule: a call that works on ONE loop changes at most that loop of its container and nothing else in the
+            #      whole CIF (other loops of the container, its frames, every other container)
+            if o in FRAME_OPS:
+                fpath = path
+                if "i" in op and op["i"] < len(it_lh) and it_lh[op["i"]] < len(lh_ch) and lh_ch[it_lh[op["i"]]] < len(ch_path):
+                    fpath = ch_path[lh_ch[it_lh[op["i"]]]]
+                if fpath is not None:
+                    pb, pa = find_path(B, fpath), find_path(A, fpath)
+                    if pb is not None and pa is not None:
+                        if without_loops(B, fpath) != without_loops(A, fpath):
+                            out.append((None, "%s: the call changed something outside the loops of its container: %s  ->  %s" % (
+                                where, prev["dumps"][target][:400], st["dumps"][target][:400])))
+                        gone = [l for l in pb["loops"] if l not in pa["loops"]]
+                        came = [l for l in pa["loops"] if l not in pb["loops"]]
+                        if len(gone) > 1 or len(came) > 1:
+                            out.append((None, "%s: the call changed more than one loop of its container: %r  ->  %r" % (where, gone, came)))
+        if o == "itclose" and rc == 0 and target in after and target in before and st["dumps"][target] != prev["dumps"][target]:
+            out.append((None, "%s: closing the iterator changed the content: %s  ->  %s" % (where, prev["dumps"][target][:300], st["dumps"][target][:300])))
         if o == "getval" and path_of(op, ch_path) is not None and op["name"] and target in after:
             pa = find_path(after[target], path_of(op, ch_path))
             if pa is not None and rc in (0, AMBIGUOUS_ITEM, NOSUCH_ITEM):
@@ -1238,6 +1391,19 @@ def violations(req, impl):
                     ch_path[i] = None
         prev = st
     return out
+
+
+FRAME_OPS = {"setval", "rmitem", "addpkt", "additem", "mkloop", "ldestroy", "setcat", "itupd", "itrem"}
+
+
+def without_loops(cif, path):
+    """deep copy of the CIF with the loops of the container at `path` blanked"""
+    import copy
+    c2 = copy.deepcopy(cif)
+    c = find_path(c2, path)
+    if c is not None:
+        c["loops"] = []
+    return c2
 
 
 def path_of(op, ch_path):
